@@ -45,6 +45,9 @@ def _extract_constant(node: ast.Constant, parent: Module) -> list[str | ExprName
 
 
 def _extract_name(node: ast.Name, parent: Module) -> list[str | ExprName]:
+    if node.id == "__all__" and parent.exports is not None:
+        # The module's own `__all__` (`__all__ = __all__ + [...]`): what was collected so far.
+        return list(parent.exports)
     return [ExprName(node.id, parent)]
 
 
